@@ -141,18 +141,22 @@ namespace Dune
 
       cls.def( "assign", [] ( T &self, const T &x ) { self = x; }, "x"_a );
 
-      cls.def( "__getitem__", [] ( const T &self, std::size_t i ) -> ValueType {
-          if( i < self.size() )
-            return self[ i ];
-          else
+      // Python index semantics: -size <= i < 0 addresses the entry size+i, anything outside [-size, size) is an IndexError
+      auto normalizeIndex = [] ( const T &self, pybind11::ssize_t i ) -> std::size_t {
+          const pybind11::ssize_t size = static_cast< pybind11::ssize_t >( self.size() );
+          if( i < 0 )
+            i += size;
+          if( (i < 0) || (i >= size) )
             throw pybind11::index_error();
+          return static_cast< std::size_t >( i );
+        };
+
+      cls.def( "__getitem__", [ normalizeIndex ] ( const T &self, pybind11::ssize_t i ) -> ValueType {
+          return self[ normalizeIndex( self, i ) ];
         }, "i"_a );
 
-      cls.def( "__setitem__", [] ( T &self, std::size_t i, ValueType x ) {
-          if( i < self.size() )
-            self[ i ] = x;
-          else
-            throw pybind11::index_error();
+      cls.def( "__setitem__", [ normalizeIndex ] ( T &self, pybind11::ssize_t i, ValueType x ) {
+          self[ normalizeIndex( self, i ) ] = x;
         }, "i"_a, "x"_a );
 
       cls.def( "__len__", [] ( const T &self ) -> std::size_t { return self.size(); } );
